@@ -253,6 +253,14 @@ impl Dyn {
         f(&|input: &'i str| parser.parse(input))
     }
 
+    /// One GLR parser object for a whole history of inputs.
+    pub fn glr_session<'i, R>(&self, f: impl FnOnce(&dyn Fn(&'i str) -> rustemo::Result<Forest<'i, str, Pk, Tk>>) -> R) -> R {
+        self.install();
+        let lexer = self.string_lexer::<GlrCtx<'i>>();
+        let parser: GlrParser<'i, St, _, Pk, Tk, Ntk, DynDef, str, TreeBuilder<'i, str, Pk, Tk>> = GlrParser::new(self.def, self.cfg.partial, self.has_layout, lexer);
+        f(&|input: &'i str| parser.parse(input))
+    }
+
     pub fn glr_parse<'i>(&self, input: &'i str) -> rustemo::Result<Forest<'i, str, Pk, Tk>> {
         self.glr_parse_with(input, self.string_lexer::<GlrCtx<'i>>())
     }
